@@ -221,3 +221,222 @@ Proof.
   destruct (cut_nofault lens (skipn (N.to_nat consumed) data)) as [ss' [C L]]; [unfold len in *; rewrite skipn_length; lia|].
   rewrite C. intros H. injection H as <- <-. split; [rewrite L; exact Ll|exact E].
 Qed.
+
+(** ** DELTA_BYTE_ARRAY *)
+Lemma common_prefix_le a b : (common_prefix a b <= length a)%nat /\ (common_prefix a b <= length b)%nat.
+Proof.
+  revert b. induction a as [|x a IH]; intros b; [cbn; lia|]. destruct b as [|y b]; [cbn; lia|].
+  cbn [common_prefix length]. destruct (x =? y); [destruct (IH b); lia|lia].
+Qed.
+
+Lemma common_prefix_firstn a b : firstn (common_prefix a b) a = firstn (common_prefix a b) b.
+Proof.
+  revert b. induction a as [|x a IH]; intros b; [destruct b; reflexivity|]. destruct b as [|y b]; [reflexivity|].
+  cbn [common_prefix]. destruct (N.eqb_spec x y) as [->|_]; [|reflexivity]. cbn [firstn]. f_equal. apply IH.
+Qed.
+
+Definition suffixes (ps : list nat) (vs : list (list N)) : list (list N) :=
+  map (fun pv => skipn (fst pv) (snd pv)) (combine ps vs).
+
+Lemma i32_of_len (s : list N) : len s < 2 ^ 31 -> i32_of (len s) = Z.of_N (len s).
+Proof. apply i32_of_small. Qed.
+
+Lemma u32_small x : x < 2 ^ 32 -> u32 x = x.
+Proof. intros H. rewrite u32_mod. apply N.mod_small; exact H. Qed.
+
+(** the reconstruction loop after the first string *)
+Lemma rebuild_tail vs : forall pv woff work_cap rest, Forall str_ok vs -> len pv < 2 ^ 31 ->
+  woff + len (concat vs) <= work_cap ->
+  rebuild (map N.of_nat (prefixes pv vs)) (map len (suffixes (prefixes pv vs) vs))
+          (concat (suffixes (prefixes pv vs) vs) ++ rest) (Some pv) woff work_cap = Ok vs.
+Proof.
+  induction vs as [|v t IH]; intros pv woff work_cap rest Hok Hpv Hcap; [reflexivity|].
+  inversion Hok as [|? ? [Hvb Hvl] Ht]; subst.
+  cbn [prefixes suffixes combine map fst snd concat] in *. fold (suffixes (prefixes v t) t).
+  set (p := common_prefix pv v). destruct (common_prefix_le pv v) as [P1 P2]. fold p in P1, P2.
+  assert (Ls : len (skipn p v) = len v - N.of_nat p) by (unfold len; rewrite skipn_length; lia).
+  cbn [rebuild]. rewrite Ls.
+  assert (Hsum : N.of_nat p + (len v - N.of_nat p) = len v) by (unfold len; lia).
+  rewrite Hsum, u32_small by (eapply N.lt_trans; [exact Hvl|reflexivity]).
+  rewrite len_app in Hcap.
+  assert (E1 : (work_cap <? woff + len v) = false) by (apply N.ltb_ge; lia). rewrite E1.
+  assert (PRE : (if 0 <? N.of_nat p
+                 then if (Z.of_N (N.of_nat p) >? i32_of (len pv))%Z then Err ERR_DECODE
+                      else match take (N.to_nat (N.of_nat p)) pv with Some (pre, _) => Ok pre | None => Fault OobRead end
+                 else Ok []) = Ok (firstn p pv)).
+  { destruct (0 <? N.of_nat p) eqn:E0.
+    - rewrite i32_of_len by exact Hpv.
+      assert (E2 : (Z.of_N (N.of_nat p) >? Z.of_N (len pv))%Z = false) by (rewrite Z.gtb_ltb; apply Z.ltb_ge; unfold len; lia).
+      rewrite E2, Nat2N.id, take_some by lia. reflexivity.
+    - apply N.ltb_ge in E0. assert (p = 0%nat) as -> by lia. reflexivity. }
+  rewrite PRE. rewrite <- app_assoc.
+  replace (N.to_nat (len v - N.of_nat p)) with (length (skipn p v)) by (rewrite skipn_length; unfold len; lia).
+  rewrite take_app.
+  assert (Estr : firstn p pv ++ skipn p v = v).
+  { unfold p. rewrite common_prefix_firstn. apply firstn_skipn. }
+  rewrite Estr. rewrite IH; [reflexivity|exact Ht|exact Hvl|lia].
+Qed.
+
+Lemma rebuild_tail0 vs pv woff work_cap : Forall str_ok vs -> len pv < 2 ^ 31 ->
+  woff + len (concat vs) <= work_cap ->
+  rebuild (map N.of_nat (prefixes pv vs)) (map len (suffixes (prefixes pv vs) vs))
+          (concat (suffixes (prefixes pv vs) vs)) (Some pv) woff work_cap = Ok vs.
+Proof.
+  intros. rewrite <- (app_nil_r (concat (suffixes (prefixes pv vs) vs))). apply rebuild_tail; assumption.
+Qed.
+
+Lemma prefixes_length pv vs : length (prefixes pv vs) = length vs.
+Proof. revert pv; induction vs; intros; cbn [prefixes length]; auto. Qed.
+
+Lemma prefixes_u32 pv vs : Forall str_ok vs -> Forall u32v (map N.of_nat (prefixes pv vs)).
+Proof.
+  revert pv. induction vs as [|v t IH]; intros pv H; [constructor|]. inversion H as [|? ? [_ Hl] Ht]; subst.
+  cbn [prefixes map]. constructor; [|apply IH; exact Ht].
+  destruct (common_prefix_le pv v) as [_ P]. unfold u32v, len in *.
+  assert (2 ^ 31 < 2 ^ 32) by reflexivity. lia.
+Qed.
+
+Lemma suffixes_ok ps vs : Forall str_ok vs -> Forall str_ok (suffixes ps vs).
+Proof.
+  revert ps. induction vs as [|v t IH]; intros ps H; [destruct ps; constructor|]. destruct ps as [|p ps]; [constructor|].
+  inversion H as [|? ? [Hb Hl] Ht]; subst. cbn [suffixes combine map fst snd]. constructor; [|apply IH; exact Ht].
+  split; [apply Forall_skipn; exact Hb|unfold len in *; rewrite skipn_length; lia].
+Qed.
+
+Lemma suffixes_length ps vs : length ps = length vs -> length (suffixes ps vs) = length vs.
+Proof. intros H. unfold suffixes. rewrite map_length, combine_length. lia. Qed.
+
+(** C11: whenever the encoder reports success, the decoder (with a work buffer that holds all strings) gives the
+    strings back and consumes all bytes *)
+Theorem delta_strings_roundtrip vs bs work_cap : vs <> [] -> Forall str_ok vs -> len vs < 2 ^ 31 ->
+  len (concat vs) <= work_cap ->
+  delta_strings_encode vs = Ok bs ->
+  delta_strings_decode bs (len vs) work_cap = Ok (vs, len bs).
+Proof.
+  intros Hne Hok Hl Hcap H. unfold delta_strings_encode in H. destruct vs as [|v0 t] eqn:Ev; [contradiction|]. rewrite <- Ev in *.
+  set (ps := prefix_lengths vs) in *. fold (suffixes ps vs) in H. set (sufs := suffixes ps vs) in *.
+  destruct (delta_encode_int32 (map N.of_nat ps) (lengths_capacity (len vs))) as [pb|c|e] eqn:E1; try discriminate.
+  destruct (delta_encode_int32 (map len sufs) (lengths_capacity (len vs))) as [sb|c|e] eqn:E2; try discriminate.
+  injection H as <-. apply delta_encode_int32_ok in E1. apply delta_encode_int32_ok in E2. subst pb sb.
+  assert (Lps : length ps = length vs) by (unfold ps; rewrite Ev; cbn [prefix_lengths length]; rewrite prefixes_length; reflexivity).
+  assert (Lsf : length sufs = length vs) by (apply suffixes_length; exact Lps).
+  assert (Hsok : Forall str_ok sufs) by (apply suffixes_ok; exact Hok).
+  assert (Hpu : Forall u32v (map N.of_nat ps)).
+  { unfold ps. rewrite Ev. cbn [prefix_lengths map]. constructor; [reflexivity|]. apply prefixes_u32. rewrite Ev in Hok. inversion Hok; assumption. }
+  assert (Lp : len (map N.of_nat ps) = len vs) by (unfold len; rewrite map_length, Lps; reflexivity).
+  assert (Lsl : len (map len sufs) = len vs) by (unfold len; rewrite map_length, Lsf; reflexivity).
+  assert (Hpne : map N.of_nat ps <> []) by (unfold ps; rewrite Ev; discriminate).
+  assert (Hsne : map len sufs <> []).
+  { intros Q. apply (f_equal (@length N)) in Q. rewrite map_length, Lsf, Ev in Q. discriminate. }
+  unfold delta_strings_decode.
+  assert (E0 : (len vs =? 0) = false) by (apply N.eqb_neq; rewrite Ev; unfold len; cbn [length]; lia). rewrite E0.
+  pose proof (delta32_roundtrip_rest (map N.of_nat ps) (delta_bytes_int32 (map len sufs) ++ concat sufs) Hpne Hpu
+                ltac:(rewrite Lp; exact Hl) (bytes_app _ _ (delta_bytes_int32_ok _) (concat_bytes _ Hsok))) as R1.
+  rewrite Lp in R1. rewrite R1. rewrite len_nat, skipn_app_exact.
+  pose proof (delta32_roundtrip_rest (map len sufs) (concat sufs) Hsne (lens_u32 _ Hsok)
+                ltac:(rewrite Lsl; exact Hl) (concat_bytes _ Hsok)) as R2.
+  rewrite Lsl in R2. rewrite R2.
+  assert (N1 : any_negative (map len sufs) = false).
+  { apply any_negative_false. apply Forall_forall. intros l Hi. apply in_map_iff in Hi. destruct Hi as [s [<- Hs]].
+    rewrite Forall_forall in Hsok. apply (Hsok s Hs). }
+  assert (N2 : any_negative (map N.of_nat ps) = false).
+  { apply any_negative_false. clear - Hok Ev. unfold ps. rewrite Ev. cbn [prefix_lengths map]. constructor; [reflexivity|].
+    rewrite Ev in Hok. inversion Hok as [|? ? _ Ht]; subst. clear - Ht. revert v0. induction Ht as [|v t [_ Hl] _ IH]; intros v0; [constructor|].
+    cbn [prefixes map]. constructor; [|apply IH]. destruct (common_prefix_le v0 v) as [_ P]. unfold len in Hl. lia. }
+  rewrite N1, N2. cbn [orb]. rewrite sumN_lens, !len_app.
+  assert (E3 : (len (delta_bytes_int32 (map N.of_nat ps)) + (len (delta_bytes_int32 (map len sufs)) + len (concat sufs)) <?
+                len (delta_bytes_int32 (map N.of_nat ps)) + len (delta_bytes_int32 (map len sufs)) + len (concat sufs)) = false)
+    by (apply N.ltb_ge; lia).
+  rewrite E3. rewrite len_nat, skipn_app_exact.
+  (* the first string has prefix 0, then the tail loop *)
+  unfold sufs, ps. rewrite Ev. cbn [prefix_lengths suffixes combine map fst snd concat].
+  fold (suffixes (prefixes v0 t) t). change (skipn 0 v0) with v0.
+  rewrite Ev in Hok. inversion Hok as [|? ? [Hb0 Hl0] Ht]; subst.
+  cbn [rebuild]. change (N.of_nat 0 + len v0) with (0 + len v0). rewrite N.add_0_l, u32_small by (eapply N.lt_trans; [exact Hl0|reflexivity]).
+  cbn [concat] in Hcap. rewrite len_app in Hcap.
+  assert (E4 : (work_cap <? 0 + len v0) = false) by (apply N.ltb_ge; lia). rewrite E4.
+  change (0 <? N.of_nat 0) with false. cbv iota. rewrite len_nat.
+  rewrite take_app. cbn [app].
+  rewrite (rebuild_tail0 t v0 (0 + len v0) work_cap); [|exact Ht|exact Hl0|lia].
+  f_equal. f_equal. lia.
+Qed.
+
+Example delta_strings_roundtrip_ex :
+  match delta_strings_encode [[97;98]; [97;98;99]; [97]] with
+  | Ok bs => delta_strings_decode bs 3 6 = Ok ([[97;98]; [97;98;99]; [97]], len bs)
+  | _ => False
+  end.
+Proof. vm_compute. reflexivity. Qed.
+
+Theorem delta_strings_empty data cap : delta_strings_encode [] = Err ERR_INVALID_ARGUMENT /\
+  delta_strings_decode data 0 cap = Err ERR_INVALID_ARGUMENT.
+Proof. split; reflexivity. Qed.
+
+(** C08 *)
+Lemma i32_of_le x : (i32_of x <= Z.of_N x)%Z.
+Proof.
+  unfold i32_of. rewrite u32_mod. pose proof (N.mod_le x (2 ^ 32) ltac:(discriminate)).
+  pose proof (N.mod_lt x (2 ^ 32) ltac:(discriminate)). change (2 ^ 32)%Z with 4294967296%Z.
+  destruct (x mod 2 ^ 32 <? 2 ^ 31); lia.
+Qed.
+
+Lemma rebuild_nofault pls : forall sls sufdata prev woff cap, sumN sls <= len sufdata ->
+  (forall f, rebuild pls sls sufdata prev woff cap <> Fault f) /\
+  (forall ss, rebuild pls sls sufdata prev woff cap = Ok ss -> (length ss <= length pls)%nat).
+Proof.
+  induction pls as [|p pt IH]; intros sls sufdata prev woff cap H.
+  - split; [intros f; discriminate|]. intros ss Q. cbn in Q. injection Q as <-. cbn; lia.
+  - destruct sls as [|s st]; [split; [intros f; discriminate|intros ss Q; cbn in Q; injection Q as <-; cbn; lia]|].
+    cbn [sumN fold_right] in H. fold (sumN st) in H. cbn [rebuild].
+    destruct (cap <? woff + u32 (p + s)); [split; [intros f; discriminate|intros; discriminate]|].
+    assert (PRE : exists r, (if 0 <? p
+                 then match prev with
+                      | None => Err ERR_DECODE
+                      | Some pv => if (Z.of_N p >? i32_of (len pv))%Z then Err ERR_DECODE
+                                   else match take (N.to_nat p) pv with Some (pre, _) => Ok pre | None => Fault OobRead end
+                      end
+                 else Ok []) = r /\ forall f, r <> Fault f).
+    { eexists. split; [reflexivity|]. intros f. destruct (0 <? p); [|discriminate]. destruct prev as [pv|]; [|discriminate].
+      destruct (Z.of_N p >? i32_of (len pv))%Z eqn:E; [discriminate|]. rewrite Z.gtb_ltb in E. apply Z.ltb_ge in E.
+      pose proof (i32_of_le (len pv)). rewrite take_some by (unfold len in *; lia). discriminate. }
+    destruct PRE as [r [-> NF]]. destruct r as [pre|c|e]; [|split; [intros f; discriminate|intros; discriminate]|exfalso; apply (NF e); reflexivity].
+    rewrite take_some by (unfold len in H; lia).
+    destruct (IH st (skipn (N.to_nat s) sufdata) (Some (pre ++ firstn (N.to_nat s) sufdata)) (woff + u32 (p + s)) cap) as [NF2 SZ].
+    { unfold len in *. rewrite skipn_length. lia. }
+    destruct (rebuild pt st _ _ _ cap) as [more|c|e].
+    + split; [intros f; discriminate|]. intros ss Q. injection Q as <-. cbn [length]. specialize (SZ _ eq_refl). lia.
+    + split; [intros f; discriminate|intros; discriminate].
+    + exfalso. apply (NF2 e). reflexivity.
+Qed.
+
+Theorem delta_strings_decode_never_faults data count cap : forall f, delta_strings_decode data count cap <> Fault f.
+Proof.
+  intros f. unfold delta_strings_decode. destruct (count =? 0); [discriminate|].
+  pose proof (delta32_decode_never_faults data count) as NF1.
+  destruct (delta_decode_int32 data count) as [[pls c1]|c|e] eqn:D1; [|discriminate|intros Q; apply (NF1 e); reflexivity].
+  destruct (delta32_decode_result_size _ _ _ _ D1) as [_ L1].
+  pose proof (delta32_decode_never_faults (skipn (N.to_nat c1) data) count) as NF2.
+  destruct (delta_decode_int32 (skipn (N.to_nat c1) data) count) as [[sls c2]|c|e] eqn:D2; [|discriminate|intros Q; apply (NF2 e); reflexivity].
+  destruct (delta32_decode_result_size _ _ _ _ D2) as [_ L2].
+  destruct (any_negative sls || any_negative pls); [discriminate|].
+  destruct (len data <? c1 + c2 + sumN sls) eqn:E; [discriminate|]. apply N.ltb_ge in E.
+  destruct (rebuild_nofault pls sls (skipn (N.to_nat c2) (skipn (N.to_nat c1) data)) None 0 cap) as [NF3 _].
+  { unfold len in *. rewrite !skipn_length. rewrite skipn_length in L2. lia. }
+  destruct (rebuild pls sls _ None 0 cap) as [ss|c|e]; [discriminate|discriminate|]. intros Q. apply (NF3 e). reflexivity.
+Qed.
+
+Theorem delta_strings_decode_result_size data count cap ss c : delta_strings_decode data count cap = Ok (ss, c) ->
+  len ss <= count /\ c <= len data.
+Proof.
+  unfold delta_strings_decode. destruct (count =? 0); [discriminate|].
+  destruct (delta_decode_int32 data count) as [[pls c1]|c0|e] eqn:D1; try discriminate.
+  destruct (delta32_decode_result_size _ _ _ _ D1) as [P1 L1].
+  destruct (delta_decode_int32 (skipn (N.to_nat c1) data) count) as [[sls c2]|c0|e] eqn:D2; try discriminate.
+  destruct (delta32_decode_result_size _ _ _ _ D2) as [P2 L2].
+  destruct (any_negative sls || any_negative pls); [discriminate|].
+  destruct (len data <? c1 + c2 + sumN sls) eqn:E; [discriminate|]. apply N.ltb_ge in E.
+  destruct (rebuild_nofault pls sls (skipn (N.to_nat c2) (skipn (N.to_nat c1) data)) None 0 cap) as [_ SZ].
+  { unfold len in *. rewrite !skipn_length. rewrite skipn_length in L2. lia. }
+  destruct (rebuild pls sls _ None 0 cap) as [ss'|c0|e]; try discriminate.
+  intros H. injection H as <- <-. specialize (SZ _ eq_refl). split; [unfold len in *; lia|exact E].
+Qed.
